@@ -672,6 +672,24 @@ def run_replay(ctx):
     """./check C07 --replay FILE : re-execute the recorded scenario (+ schedule) and validate it again."""
     rep, rr = ctx.rep, ctx.replay
     sub, scn = rr.get("sub"), rr.get("scenario")
+    if sub == "IoTimers" and scn:
+        # free-running real-time scenario: re-run it (8 times; schedules are not reproducible exactly) and validate again
+        sp = os.path.join(ctx.work, "replay_scn.json")
+        json.dump([dict(scn, id=i + 1) for i in range(8)], open(sp, "w"))
+        lp = os.path.join(ctx.work, "replay_log.ndjson")
+        exe = vlib.build(ctx, "timer_iot", ["engines/timer/driver_iot.cpp"],
+                         lib=["inplace_stop_token.cpp", "async_stack.cpp", "exception.cpp"] + vlib.LIB_LINUX)
+        sums, deaths = vlib.run_batches(ctx, exe, ["--scenarios", sp, "--seed", ctx.seed], 8, lp, timeout=600)
+        rep.evaluations += sum(s.get("execs", 0) for s in sums)
+        for d in deaths:
+            _death_violation(rep, sub, "realtime", d, scn, dict(context=scn.get("ctx"), tag=scn.get("tag")))
+        flt = os.path.join(ctx.work, "replay_log_f.ndjson")
+        with open(flt, "w") as f:
+            for x, lines in vlib.split_executions(lp):
+                if not any('"e":"Discard"' in l for l in lines) and len(lines) > 1:
+                    f.writelines(lines)
+        _validate(ctx, rep, sub, "realtime", flt, scn_by_id={i + 1: scn for i in range(8)})
+        return
     if not scn or sub not in ("TimedSingleThread", "ThreadUnsafeLoop"):
         raise vlib.Broken("replay file carries no scenario for a replayable sub-engine")
     scn = dict(scn, id=1)
